@@ -666,7 +666,16 @@ def exec_call(bt, case):
     """real execution; returns dict(out, temp, perm, log, kids)"""
     rec = Rec()
     target = get_target(bt, case["target"])
-    kids = read_kids(target)
+    stale_amt = case.get("stale")
+    if stale_amt:
+        # the algo is called on a tree with pending changes (a capital flow just moved every weight) and nothing has read a
+        # refreshing getter since: the expected answer is computed from the weights read AFTER the call
+        import copy as _copy
+        target = _copy.deepcopy(target)
+        target.adjust(float(stale_amt))
+        kids = None
+    else:
+        kids = read_kids(target)
     algo = build_algo(bt, case["prog"], rec, {})
     target.temp = mk_dict(case["temp"])
     target.perm = mk_dict(case["perm"])
@@ -675,6 +684,8 @@ def exec_call(bt, case):
         out = ("ok", bool(r)) if isinstance(r, (bool, np.bool_)) else ("ok", "non-bool:" + type(r).__name__)
     except Exception as e:
         out = ("err", exc_kind(e))
+    if kids is None:
+        kids = read_kids(target)
     res = {"out": out, "temp": snap_dict(target.temp), "perm": snap_dict(target.perm), "log": list(rec.log), "kids": kids,
            "name": target.name}
     target.temp = {}
@@ -868,7 +879,12 @@ def gen_oob_case(rng, bt, pool):
     if rng.random() < 0.3:
         temp.append(["k0", ["I", 1]])
     rng.shuffle(temp)
-    return {"kind": "call", "gen": gen, "prog": {"k": "B", "ra": 0, "tol": tol}, "target": ts, "temp": temp, "perm": []}
+    case = {"kind": "call", "gen": gen, "prog": {"k": "B", "ra": 0, "tol": tol}, "target": ts, "temp": temp, "perm": []}
+    if gen == "oob" and rng.random() < 0.3 and ts.get("capital"):
+        # a deposit / withdrawal right before the call: the tree is stale when the algo reads the weights
+        case["stale"] = float(ts["capital"]) * rng.choice([1.0, 0.5, 3.0, -0.4])
+        case["gen"] = "oob:stale-tree"
+    return case
 
 
 # ---------------------------------------------------------------- trees: Strategy.run
